@@ -1252,7 +1252,9 @@ def t5_mouse(ctx, it, consts):
                     wheel_seen.setdefault(wb, set()).add(name)
                     ok_name = name in WHEEL_NAMES
                 else:
-                    ok_name = True          # buttons 6/7 (horizontal wheel) have no name in the library: unconstrained
+                    # buttons 6/7 (horizontal wheel) have no name of their own in the library; whatever it reports for them, it is not
+                    # one of the names that denote a different button (left/middle/right) or the vertical wheel
+                    ok_name = name not in WHEEL_NAMES and name not in (BUTTON_NAME["left"], BUTTON_NAME["middle"], BUTTON_NAME["right"])
             else:
                 want_name = BUTTON_NAME[bv["buttons"][str(low)]]
                 ok_name = name == want_name
@@ -1264,8 +1266,9 @@ def t5_mouse(ctx, it, consts):
             n_bad += 1
             inp = "ESC[<%d;%d;%d%s" % (e, x, y, final)
             if not ok_name:
-                ctx.violation("T5-MOUSE-TABLE", where, "name-" + ("wheel" if e & bv["wheel"] else bv["buttons"][str(low)]),
-                              "`%s` is a %s event but decodes to %s" % (inp, "wheel" if e & bv["wheel"] else want_name, name), sites=site)
+                hw = bool(e & bv["wheel"]) and bv["wheel_buttons"].get(str(low)) is None
+                ctx.violation("T5-MOUSE-TABLE", where, "name-" + ("wheel-horizontal" if hw else "wheel" if e & bv["wheel"] else bv["buttons"][str(low)]),
+                              "`%s` is a %s event but decodes to %s" % (inp, "horizontal wheel (button 6/7)" if hw else "wheel" if e & bv["wheel"] else want_name, name), sites=site)
             if bits != want_bits:
                 diff = bits ^ want_bits
                 shape = "press-flag" if diff == press else "modifiers"
